@@ -28,7 +28,8 @@ package document
 //@ spec sectPgMar(s *SectionProperties, k int) bool = ite(k < 0, s.PageMargins == nil, s.PageMargins != nil && s.PageMargins.Top == av(k, "top") && s.PageMargins.Right == av(k, "right") && s.PageMargins.Bottom == av(k, "bottom") && s.PageMargins.Left == av(k, "left") && s.PageMargins.Header == av(k, "header") && s.PageMargins.Footer == av(k, "footer") && s.PageMargins.Gutter == av(k, "gutter"))
 //@ spec sectCols(s *SectionProperties, k int) bool = ite(k < 0, s.Columns == nil, s.Columns != nil && s.Columns.Space == av(k, "space") && s.Columns.Num == av(k, "num"))
 //@ spec sectGrid(s *SectionProperties, k int) bool = ite(k < 0, s.DocGrid == nil, s.DocGrid != nil && s.DocGrid.Type == av(k, "type") && s.DocGrid.LinePitch == av(k, "linePitch") && s.DocGrid.CharSpace == av(k, "charSpace"))
-//@ spec sectTitlePg(s *SectionProperties, k int) bool = (k >= 0) == (s.TitlePage != nil)
+// different first page: on iff the last w:titlePg child does not switch it off (w:val 0/false/off)
+//@ spec sectTitlePg(s *SectionProperties, k int) bool = (s.TitlePage != nil) == (k >= 0 && av(k, "val") != "0" && av(k, "val") != "false" && av(k, "val") != "off")
 //@ spec sectPgNum(s *SectionProperties, k int) bool = ite(k < 0, s.PageNumType == nil, s.PageNumType != nil && s.PageNumType.Fmt == av(k, "fmt"))
 // kidEnd(p0, e, d, name): e is the end tag of a qualifying direct child named name of the element at depth d
 //@ spec kidEnd(p0 int, e int, d int, name string) bool = p0 <= e && tokIsEnd(e) && xmlDepth(e + 1) == d && tokLocal(xmlOpen(e)) == name && sectQual(xmlOpen(e))
@@ -53,6 +54,8 @@ package document
 //@ ensures err == nil ==> sectPgMar(result0, lastKid(old(xmlPos()), xmlPos() - 1, "pgMar"))
 //@ ensures err == nil ==> sectCols(result0, lastKid(old(xmlPos()), xmlPos() - 1, "cols"))
 //@ ensures err == nil ==> sectGrid(result0, lastKid(old(xmlPos()), xmlPos() - 1, "docGrid"))
+//@ ensures err == nil ==> sectTitlePg(result0, lastKid(old(xmlPos()), xmlPos() - 1, "titlePg"))
+//@ ensures err == nil ==> sectPgNum(result0, lastKid(old(xmlPos()), xmlPos() - 1, "pgNumType"))
 //@ ensures err == nil ==> len(result0.HeaderReferences) == kidCnt(old(xmlPos()), xmlPos() - 1, "headerReference")
 //@ ensures err == nil ==> len(result0.FooterReferences) == kidCnt(old(xmlPos()), xmlPos() - 1, "footerReference")
 //@ ensures err == nil ==> forall e int :: {xmlOpen(e)} e < xmlPos() - 1 && kidEnd(old(xmlPos()), e, old(xmlDepth(xmlPos())), "headerReference") ==> 0 <= kidCnt(old(xmlPos()), xmlOpen(e), "headerReference") && kidCnt(old(xmlPos()), xmlOpen(e), "headerReference") < len(result0.HeaderReferences) && live(result0.HeaderReferences[kidCnt(old(xmlPos()), xmlOpen(e), "headerReference")]) && result0.HeaderReferences[kidCnt(old(xmlPos()), xmlOpen(e), "headerReference")] != nil && result0.HeaderReferences[kidCnt(old(xmlPos()), xmlOpen(e), "headerReference")].Type == hfType(xmlOpen(e)) && result0.HeaderReferences[kidCnt(old(xmlPos()), xmlOpen(e), "headerReference")].ID == hfID(xmlOpen(e))
@@ -68,6 +71,8 @@ package document
 //@   invariant sectPgMar(sectPr, lastKid(old(xmlPos()), xmlPos(), "pgMar"))
 //@   invariant sectCols(sectPr, lastKid(old(xmlPos()), xmlPos(), "cols"))
 //@   invariant sectGrid(sectPr, lastKid(old(xmlPos()), xmlPos(), "docGrid"))
+//@   invariant sectTitlePg(sectPr, lastKid(old(xmlPos()), xmlPos(), "titlePg"))
+//@   invariant sectPgNum(sectPr, lastKid(old(xmlPos()), xmlPos(), "pgNumType"))
 //@   invariant len(sectPr.HeaderReferences) == kidCnt(old(xmlPos()), xmlPos(), "headerReference")
 //@   invariant len(sectPr.FooterReferences) == kidCnt(old(xmlPos()), xmlPos(), "footerReference")
 //@   invariant forall e int :: {xmlOpen(e)} e < xmlPos() && kidEnd(old(xmlPos()), e, old(xmlDepth(xmlPos())), "headerReference") ==> 0 <= kidCnt(old(xmlPos()), xmlOpen(e), "headerReference") && kidCnt(old(xmlPos()), xmlOpen(e), "headerReference") < len(sectPr.HeaderReferences) && live(sectPr.HeaderReferences[kidCnt(old(xmlPos()), xmlOpen(e), "headerReference")]) && sectPr.HeaderReferences[kidCnt(old(xmlPos()), xmlOpen(e), "headerReference")] != nil && sectPr.HeaderReferences[kidCnt(old(xmlPos()), xmlOpen(e), "headerReference")].Type == hfType(xmlOpen(e)) && sectPr.HeaderReferences[kidCnt(old(xmlPos()), xmlOpen(e), "headerReference")].ID == hfID(xmlOpen(e))
